@@ -26,6 +26,7 @@ ASSUMPTIONS = [
     "the chain's verdict is a parameter of the connection model (allow / deny line / raise, completing at an arbitrary later event); the real RateLimiter, AccessControl and CertificateAuth components are the subject of C10, C09 and C05",
     "family chain evaluates each real component on its own to obtain the reference verdict (first rejecting component wins)",
     "family concurrent (direct oracle, no Lean line): several connections share ONE real MiddlewareChain; request lines are delivered in the same event-loop iteration or while an earlier evaluation is pending (scripted slow components); the stateful components are the real RateLimiter with the module clock frozen and a scripted quota; components are spied on individually (their process_request is replaced on the instance) and stateless components are re-evaluated on their own per connection",
+    "family pumppair (direct oracle, no Lean line): two to four connections of one PyOpenSSL-backend server are open at the same time (real TLSServerProtocol objects from one server context, real TLS clients over memory BIOs, one shared real chain); their stages (connect, first flight, end of handshake, pieces of the request, loss) are interleaved in a chosen order; each connection's questions to the chain and handler runs are attributed through a per-connection view of the chain and per-connection handlers; stateless components are re-evaluated on their own with that connection's address, URL and presented certificate",
     "the PyOpenSSL backend hands the inner protocol the same events (family pump of C01/C07); the fingerprint passed to the chain is checked on the fake transport's ssl_object and, in the thorough tier, over the memory-BIO pump",
 ]
 
@@ -592,7 +593,227 @@ class Concurrent(Family):
         return cur
 
 
-FAMILIES = [Gate(), Chain(), PumpGate(), Concurrent()]
+class PumpPair(Family):
+    """PyOpenSSL backend, several connections of one server open AT THE SAME TIME (real TLSServerProtocol objects from one
+    server context, real TLS clients over memory BIOs, ONE shared real chain): the stages of the connections - TCP connect,
+    first flight, end of the handshake (certificate presented or not), the pieces of the request, loss of the connection -
+    are interleaved in a chosen order, so that whatever the backend keeps per connection (peer address, presented
+    certificate, TLS object, inner protocol) is read while ANOTHER connection has just written its own.
+
+    Direct oracle (no Lean line), per connection i with ITS address, ITS request and the certificate IT presented:
+      * every question connection i's protocol puts to the chain carries exactly these three (`mw-args`), and a
+        connection that was never lost and sent a complete request asks exactly once;
+      * no handler runs on connection i before its protocol has consulted the chain, nor when a component of the chain
+        (real AccessControl / CertificateAuth, scripted constant), asked on its own with these three, refuses or raises;
+        the client then receives no 2x and - if it still listens - the status of the first refusing component."""
+
+    name = "pumppair"
+    quick_n = 480
+    thorough_n = 6000
+
+    CERTS = (None, None, 0, 0, 1, 2, 3, 4)
+    PLAIN = [["cert", "/app/", True, [0]], ["cert", "/app/", True, [0]], ["cert", "/", True, None], ["cert", "/", False, [0]], ["cert", "/", True, [3]], ["cert", "/up/", True, [1, 2]],
+             ["cert", "/app/", True, [4]], ["cert", "/app/", False, []], ["cert", "/", False, [1]],
+             ["acl", ["192.0.2.7/32"], None, True], ["acl", None, ["192.0.2.7"], True], ["acl", ["2001:db8::/32"], None, True], ["acl", None, ["192.0.2.8", "2001:db8::5"], True]]
+    OTHER = [["allow", None, 0], ["allow", None, 2], ["allow", None, 5], ["deny", "53 Go away\r\n", 0], ["deny", "51 Not here\r\n", 2], ["raise", None, 0], ["raise", None, 1]]
+
+    FIXED = [
+        # B (no certificate) completes its handshake, then A (authorised certificate) completes its own, then B asks
+        {"chain": [["cert", "/app/", True, [0]]], "conns": [{"peer": "192.0.2.7", "line": CONC_LINES[1], "cert": None, "cuts": []}, {"peer": "192.0.2.8", "line": CONC_LINES[1], "cert": 0, "cuts": []}],
+         "sched": [["s", 0], ["s", 0], ["s", 0], ["y", 2], ["s", 1], ["s", 1], ["s", 1], ["y", 2], ["s", 0], ["y", 4], ["s", 1]]},
+        # the other way round: A is authorised, B (a certificate that is not on the list) finishes its handshake just before A asks
+        {"chain": [["cert", "/", True, [0]]], "conns": [{"peer": "192.0.2.7", "line": CONC_LINES[5], "cert": 0, "cuts": [9]}, {"peer": "192.0.2.7", "line": CONC_LINES[0], "cert": 3, "cuts": []}],
+         "sched": [["s", 0], ["s", 0], ["s", 0], ["s", 0], ["s", 1], ["s", 1], ["s", 1], ["s", 0], ["y", 3], ["s", 1]]},
+        # address rules: the refused address connects and shakes hands first, the admitted one in between
+        {"chain": [["acl", None, ["192.0.2.7"], True]], "conns": [{"peer": "192.0.2.7", "line": CONC_LINES[0], "cert": None, "cuts": []}, {"peer": "192.0.2.8", "line": CONC_LINES[0], "cert": None, "cuts": []}],
+         "sched": [["s", 0], ["s", 0], ["s", 1], ["s", 1], ["s", 0], ["s", 1], ["s", 0], ["y", 1], ["s", 1]]},
+        # the authorised peer goes away while the other one has not asked yet
+        {"chain": [["allow", None, 2], ["cert", "/app/", True, [1, 2]]], "conns": [{"peer": "2001:db8::5", "line": CONC_LINES[4], "cert": 4, "cuts": [30]}, {"peer": "2001:db8::5", "line": CONC_LINES[4], "cert": 2, "cuts": []}],
+         "sched": [["s", 0], ["s", 0], ["s", 0], ["s", 0], ["s", 1], ["s", 1], ["s", 1], ["x", 1], ["s", 0], ["y", 6]]},
+    ]
+
+    def setup(self):
+        from ..sim import pump, pump_multi
+
+        self.P, self.M = pump, pump_multi
+
+    def gen(self, rng: random.Random, n: int):
+        k = 0
+        for c in self.share(self.FIXED):
+            k += 1
+            yield c
+        while k < n:
+            k += 1
+            comps = [rng.choice(self.PLAIN)] + [rng.choice(self.PLAIN + self.OTHER) for _ in range(rng.choice((0, 0, 1, 1, 2)))]
+            rng.shuffle(comps)
+            nconn = rng.choice((2, 2, 2, 3, 3, 4))
+            base = {"peer": rng.choice(CONC_PEERS), "line": rng.choice(CONC_LINES)}
+            conns = []
+            for _ in range(nconn):
+                c = dict(base, cert=rng.choice(self.CERTS))
+                if rng.random() < 0.5:
+                    c["peer"] = rng.choice(CONC_PEERS)
+                if rng.random() < 0.3:
+                    c["line"] = rng.choice(CONC_LINES)
+                size = len(c["line"]) + 2 + (3 if "size=3" in c["line"] else 2 if "size=2" in c["line"] else 0)
+                c["cuts"] = [rng.randint(1, size - 1)] if rng.random() < 0.3 else []
+                conns.append(c)
+            # a random merge of the connections' stages; now and then the stages of one connection stay together up to the
+            # end of its handshake (the peer is simply fast), loop iterations in between, a connection that is lost
+            todo = [[i] * (4 + len(c["cuts"])) for i, c in enumerate(conns)]
+            sched = []
+            while any(todo):
+                i = rng.choice([j for j, t in enumerate(todo) if t])
+                burst = rng.choice((1, 1, 1, 2, 3)) if len(todo[i]) > 1 else 1
+                for _ in range(min(burst, len(todo[i]))):
+                    todo[i].pop()
+                    sched.append(["s", i])
+                y = rng.choice((0, 0, 0, 1, 2, 5))
+                if y:
+                    sched.append(["y", y])
+            if rng.random() < 0.2:
+                sched.insert(rng.randint(1, len(sched)), ["x", rng.randrange(nconn)])
+            yield {"chain": comps, "conns": conns, "sched": sched}
+
+    def component(self, spec):
+        if spec[0] == "cert":
+            from nauyaca.server.middleware import CertificateAuth, CertificateAuthConfig, CertificateAuthPathRule
+
+            fps = None if spec[3] is None else {self.P.env()[1][i][2] for i in spec[3]}
+            return CertificateAuth(CertificateAuthConfig(path_rules=[CertificateAuthPathRule(prefix=spec[1], require_cert=spec[2], allowed_fingerprints=fps)]))
+        return _mk_component(spec, get_loop())
+
+    def impl(self, case):
+        loop = get_loop()
+        comps = [self.component(s) for s in case["chain"]]
+        o = loop.run_until_complete(self.M.run_pump_multi(loop, case, comps))
+        left = [t for t in asyncio.all_tasks(loop) if not t.done()]
+        for t in left:
+            t.cancel()
+        if left:
+            loop.run_until_complete(sim._drain())
+        return o
+
+    def args_of(self, conn):
+        from nauyaca.protocol.request import GeminiRequest, TitanRequest
+
+        line = conn["line"]
+        try:
+            url = (TitanRequest.from_line(line) if line.startswith("titan://") else GeminiRequest.from_line(line)).normalized_url
+        except ValueError:
+            url = line
+        return [url, conn["peer"], None if conn.get("cert") is None else self.P.env()[1][conn["cert"]][2]]
+
+    def alone(self, spec, args):
+        loop = get_loop()
+        comp = self.component([spec[0], spec[1], 0] if spec[0] in ("allow", "deny", "raise") else spec)
+        try:
+            ok, resp = loop.run_until_complete(comp.process_request(*args))
+        except Exception:  # noqa: BLE001
+            return ("raise", None)
+        return ("allow", None) if ok else ("deny", resp)
+
+    def oracle(self, case, obs):
+        specs = case["chain"]
+        names = [f"#{j} {s[0]}{s[1:]}" for j, s in enumerate(specs)]
+        args = [self.args_of(c) for c in case["conns"]]
+        whose = {}
+        for i, a in enumerate(args):
+            if a[2] is not None:
+                whose.setdefault(a[2], []).append(i)
+        trace = " ".join(obs["trace"])
+
+        def fp_text(fp):
+            if not fp:
+                return "no fingerprint"
+            own = whose.get(fp)
+            return f"fingerprint {fp[:19]}.." + (f" (the certificate connection {own[0]} presented)" if own else " (presented by nobody)")
+
+        for i, (cn, a, r) in enumerate(zip(case["conns"], args, obs["conns"])):
+            what = (f"connection {i} ({cn['line']!r} from {cn['peer']}, " + (f"presenting certificate {cn['cert']}" if cn.get("cert") is not None else "NO certificate") + ")")
+            asked = [c for c in obs["consults"] if c[0] == i]
+            asked_text = "; ".join(f"url={c[1]!r} ip={c[2]!r} {fp_text(c[3])}" for c in asked) or "nothing"
+            if r["h"] + r["u"] > 1:
+                return ("handler-twice", f"{what}: handler invoked {r['h']}x and upload handler {r['u']}x")
+            ran = [k for k, t in enumerate(obs["trace"]) if t in (f"{i}:handler", f"{i}:upload-handler")]
+            first_ask = next((k for k, t in enumerate(obs["trace"]) if t == f"{i}:chain-asked"), None)
+            if ran and (first_ask is None or first_ask > ran[0]):
+                return ("handler-ungated", f"{what}: its handler ran before its protocol had consulted the chain; order of events: {trace}")
+            for j, s in enumerate(specs):
+                v = self.alone(s, a)
+                if v[0] == "allow":
+                    continue
+                if r["h"] or r["u"]:
+                    return ("handler-ungated", f"{what}: the {'upload ' if r['u'] else ''}handler ran (client got {r['st']!r}); for it the chain was asked {asked_text}; asked on its own with this "
+                                               f"connection's address, URL and {fp_text(a[2])}, component {names[j]} {'raises' if v[0] == 'raise' else 'refuses (' + repr(v[1]) + ')'}; "
+                                               f"pyopenssl backend, order of events: {trace}")
+                if r["st"][:1] == "2":
+                    return ("refused-got-success", f"{what}: component {names[j]} refuses the request but the client got {r['st']!r}; order of events: {trace}")
+                want = (v[1] or "")[:2] if v[0] == "deny" else ""
+                if want.isdigit() and not 20 <= int(want) <= 29 and asked and r["st"] != want and not (r["lost"] and r["st"] == ""):
+                    return ("wrong-rejection", f"{what}: the first component that refuses is {names[j]} ({v[1]!r}) but the client received status {r['st']!r}; "
+                                               f"the chain was asked: {asked_text}; order of events: {trace}")
+                break
+            for c in asked:
+                if [c[1], c[2], c[3] or None] != a:
+                    return ("mw-args", f"{what}: the chain was consulted with {asked_text}; the request is {a[0]!r}, the peer's address {a[1]} and it presented {fp_text(a[2])}; "
+                                       f"pyopenssl backend, order of events: {trace}")
+            if len(asked) > 1 or (r["sent_all"] and not r["lost"] and not asked):
+                return ("mw-not-consulted", f"{what}: {'the whole' if r['sent_all'] else 'not the whole'} request reached the server, the chain was consulted {len(asked)} time(s) for it; order of events: {trace}")
+        return None
+
+    def key(self, case, obs):
+        kinds = "+".join(s[0] for s in case["chain"])
+        # did some connection finish its handshake between another one's handshake and that one's (last piece of the) request?
+        tr = obs["trace"]
+        inter = False
+        for i in range(len(case["conns"])):
+            try:
+                a = tr.index(f"{i}:handshake-done")
+                b = max(k for k, t in enumerate(tr) if t.startswith(f"{i}:request"))
+            except ValueError:
+                continue
+            inter = inter or any(t.endswith(":handshake-done") for t in tr[a + 1:b])
+        sts = "".join(sorted({r["st"][:1] or "-" for r in obs["conns"]}))
+        ids = len({json.dumps(self.args_of(c)[1:]) for c in case["conns"]})
+        return f"{kinds}|{'interleaved' if inter else 'apart'}|ids{ids}|lost{int(any(r['lost'] for r in obs['conns']))}|st={sts}"
+
+    def shrink(self, case, bad):
+        cur = case
+        budget = 80
+        changed = True
+        while changed and budget > 0:
+            changed = False
+            cands = []
+            for i in range(len(cur["conns"])):
+                if len(cur["conns"]) > 1:
+                    sched = [[e[0], e[1] - (e[1] > i)] if e[0] in ("s", "x") else e for e in cur["sched"] if not (e[0] in ("s", "x") and e[1] == i)]
+                    cands.append({"chain": cur["chain"], "conns": cur["conns"][:i] + cur["conns"][i + 1:], "sched": sched})
+            for j in range(len(cur["chain"])):
+                if len(cur["chain"]) > 1:
+                    cands.append({"chain": cur["chain"][:j] + cur["chain"][j + 1:], "conns": cur["conns"], "sched": cur["sched"]})
+            for k, e in enumerate(cur["sched"]):
+                if e[0] in ("y", "x"):
+                    cands.append({"chain": cur["chain"], "conns": cur["conns"], "sched": cur["sched"][:k] + cur["sched"][k + 1:]})
+            for i, c in enumerate(cur["conns"]):
+                if c.get("cuts"):
+                    # the request in one piece: one stage less for this connection (its last)
+                    last = max(k for k, e in enumerate(cur["sched"]) if e == ["s", i])
+                    cands.append({"chain": cur["chain"], "conns": cur["conns"][:i] + [dict(c, cuts=[])] + cur["conns"][i + 1:], "sched": cur["sched"][:last] + cur["sched"][last + 1:]})
+            for cand in cands:
+                budget -= 1
+                if budget <= 0:
+                    break
+                try:
+                    if bad(cand):
+                        cur, changed = cand, True
+                        break
+                except Exception:  # noqa: BLE001
+                    pass
+        return cur
+
+
+FAMILIES = [Gate(), Chain(), PumpGate(), Concurrent(), PumpPair()]
 
 # configuration file -> real start_server wiring -> request sequences (family `wiring`, harness/props/c04_wiring.py)
 from .c04_wiring import Wiring  # noqa: E402
